@@ -1278,9 +1278,9 @@ class Generator:
             return None
         n = self.rng.choice([1, 2, 3, 5, 9])
         if self.rng.random() < 0.6:
-            np_ = self.rng.choice([1, 1, 2, -1])
-            if np_ > m.nparts:
-                np_ = -1
+            # head(n, npartitions != 1) is the defect quoted in C11's own text (returns too few rows when leading
+            # partitions are short or empty); C11 is not a claimed property, so that region is not generated
+            np_ = 1
             return self.try_add({"op": "head", "src": m.id, "n": n, "npartitions": np_}, m.order, m.labels, self.next_id, m.index_kind)
         return self.try_add({"op": "tail", "src": m.id, "n": n}, m.order, m.labels, self.next_id, m.index_kind)
 
@@ -1349,6 +1349,10 @@ class Generator:
         if op.get("fn") == "size" or op.get("observed") is False:
             # known findings KF-C10-size-name / KF-C10-cat-unobserved (probed under C10): no split_out here
             names = ["split_every", "shuffle_method"]
+        if op.get("fn") in ("first", "last"):
+            # determinacy: through a shuffle-based aggregation the arrival order of the chunks is open, so
+            # first/last keep the order-preserving tree reduction
+            names = ["split_every"]
         self._kn(op, names)
         return self.try_add(op, "open", "defined", self.next_id, None)
 
